@@ -176,10 +176,24 @@ type PDBSpec struct {
 //   SetPod{pod fields} DeletePod{pod} SetPDB{pdb fields} AnnotateNode{node,dnd} DeleteClaim{node} SetConsolidatable{node,value}
 //                       environment changes (followed by the informer reconcile of the object)
 //   QueueReconcile      disruption.Queue.Reconcile for every command in the queue
+// Method / Candidates / Round / QueueReconcile accept `faults` (API calls of the step that fail).
 // During: environment steps executed when the clock advances *inside* the next Method/Round step
 // (i.e. during the 15 s validation wait), before the validators re-read the cluster.
+// FaultSpec makes the nth (1-based; 0 = every) matching API call of the step fail (empty fields match anything).
+type FaultSpec struct {
+	Actor string `json:"actor,omitempty"`
+	Verb  string `json:"verb,omitempty"` // get list create delete update patch
+	Kind  string `json:"kind,omitempty"`
+	Name  string `json:"name,omitempty"`
+	Sub   string `json:"sub,omitempty"` // "" main resource, "status", "*" any
+	Nth   int    `json:"nth"`
+	Err   string `json:"err"` // Conflict | NotFound | Server | TooManyRequests
+}
+
 type Step struct {
 	A      string   `json:"a"`
+	// Faults: fault plan in force during a Method / Candidates / Round / QueueReconcile step.
+	Faults []FaultSpec `json:"faults,omitempty"`
 	Method string   `json:"method,omitempty"`
 	Node   string   `json:"node,omitempty"`
 	D      int      `json:"d,omitempty"`
